@@ -382,8 +382,11 @@ def run(ctx):
     idx = 0
     harvested = source_placeholders()
     ctx.note_max("placeholders_harvested_from_source", len(harvested))
+    core = set(PAYLOADS[:12] + ["{1}", "(", "f(x", "%s", "\\'"])
     for tname, tmpl, like_pos in tm:
         for payload in PAYLOADS + harvested + [h + "'" for h in harvested[:20]]:
+            if ("-1001-" in tname or "-130-" in tname) and payload not in core:
+                continue        # the longest lists meet a core set of payloads only (cost)
             for dialect in DIALECTS:
                 for alias in (None, "tb"):
                     idx += 1
